@@ -889,7 +889,7 @@ def generate(repo):
         return text, True, 'translated %s' % ', '.join(FUNCTIONS)
     except NotInSubset as e:
         return fallback_text(str(e)), False, 'not in the subset: %s' % e
-    except (KeyError, IndexError, ValueError) as e:
+    except Exception as e:           # whatever the source looks like, the translator must not turn a harmless rewrite into an alarm
         return fallback_text('translator error %r' % (e,)), False, 'translator error %r' % (e,)
 
 
@@ -908,7 +908,7 @@ def generate_relpath(repo):
         if [(t, m) for _, t, m in fns['is_same_or_inside'].params] != [('rrp', False), ('rrp', False)] or fns['is_same_or_inside'].ret != 'bool':
             raise NotInSubset('signature of is_same_or_inside changed')
         return PATH_HEADER + '\nDefinition trans_path_applicable : bool := true.\n\n' + defs[0] + '\n', True, 'translated is_same_or_inside'
-    except (NotInSubset, KeyError, IndexError, ValueError, OSError) as e:
+    except Exception as e:           # outside the subset, unreadable, or a translator error: fall back, never alarm
         r = str(e).replace('*)', '* )')
         return (PATH_HEADER + '''
 (* The translator does not apply to the current source: %s
